@@ -54,11 +54,20 @@ Sentinel(r) ==
     /\ r.score = MIN_SCORE /\ r.ops = << >>
     /\ r.xstart = 0 /\ r.xend = 0 /\ r.ystart = 0 /\ r.yend = 0 /\ r.xlen = 0 /\ r.ylen = 0
 
+\* unary inputs of the budget-guard cases are logged as (fill symbol, length)
+BigExplains(cfg, c, r) ==
+    LET full == c.a.nomatches = 1 \/ (c.a.internal = 1 /\ c.a.xfill # c.a.yfill)   \* no common symbol: no k-mer match
+    IN  /\ full                                             \* the drivers only send such cases
+        /\ IF (c.a.xlen + 1) * (c.a.ylen + 1) > MAX_CELLS
+           THEN Sentinel(r)
+           ELSE r.score > MIN_SCORE /\ r.xlen = c.a.xlen /\ r.ylen = c.a.ylen
+
 BandedExplains(cfg, c, r) ==
     /\ c.op \in {"custom", "custom_prehash", "custom_matches", "custom_expanded", "custom_path",
                  "global", "semiglobal", "semiglobal_prehash", "local"}
     /\ IsAlignment(r)
-    /\ LET md == ModeOf(c.op)
+    /\ IF c.a.big = 1 THEN BigExplains(cfg, c, r) ELSE
+       LET md == ModeOf(c.op)
            sc == Effective(Scheme(cfg), md)
            x  == c.a.x   y == c.a.y
            full == \/ c.a.nomatches = 1                                   \* caller supplied an empty backbone
